@@ -35,6 +35,11 @@ CHECKS = {
          "BFS over operation histories (pushes of equal and different content, image/index manifests incl. nested and mistyped references, same bytes under two media types, mounts, deletes, one chunked upload) through ocifilter.Immutable(ocimem) (depth 3 quick / 4 thorough) and through ocimem in immutable-tags mode (depth 2 / 3, also compared with the reference model), from empty and 4 seeded states, plus closed mini-universes to FIXPOINT. Monitors: first observed (tag -> digest, bytes) must hold in every later state via ResolveTag and GetTag; through Immutable nothing ever retrievable is lost and no delete succeeds; in immutable-tags mode the model-computed transitive closure of every tag stays retrievable. ReadOnly: in every reached backend state every mutating call through the wrapper fails UNSUPPORTED, the backend dump is bit-identical afterwards and all reads equal direct reads.",
          "Sequential histories only here; the concurrent part of the immutable-tags claim is explored by C08's scheduler harnesses. Bounded universe as C02.",
          "DESIGN.md 3 C14"),
+ "C15": ("model_checking", "E2-state",
+         "exhaustive enumeration of member-state pairs against a union model plus BFS over write histories through the real unifier with reference-model and member-equality oracles",
+         "Read side: all 1156 ordered pairs of 34 member states (equal, disjoint, overlapping, conflicting tag, repository known to one member only, empty) x every read/resolve/list query x both read policies: digest content readable iff either member has it, tag resolves iff members agree or one has it and FAILS on disagreement, listings are the sorted duplicate-free union, sequential == concurrent. Write side: BFS (depth 2 quick / 3 thorough, from empty and seeded states) over histories through ociunify.New(ocimem, ocimem) under both policies and with each member forced to answer first (deterministic gate), with the C02 reference model as oracle and, after every transition, both members observably equal AND bit-identical up to upload IDs; plus runs where one member fails its k-th mutating call (k<=3): the unifier must not report success.",
+         "Same media type for content present in both members. The free-running goroutines inside ociunify are ordered by the gate wrappers for operations sent to both members; the schedule space of concurrent reads is C16's.",
+         "DESIGN.md 3 C15"),
  "C16": ("model_checking", "E1-sched",
          "stateless exhaustive schedule exploration (all interleavings, no preemption bound) of the real ociunify code under a cooperative scheduler installed by build overlay",
          "144 scenarios (5 read entry points x 4x4 member scripts {success, failure, block until own context cancelled then succeed/fail} x canceller thread on/off x member reader Close error on/off) x EVERY schedule of the caller, the two sender goroutines that ociunify itself spawns, and the canceller: go statements, channel send/receive/close and every ready select case are choice points owned by the explorer. After every complete schedule: result is a successful member's answer or an error only if both failed or the caller had cancelled; every reader opened by the unchosen member is closed exactly once; the chosen member's context is live until the returned reader's Close and cancelled afterwards (immediately for resolve-style reads); no thread remains blocked (scheduler-level deadlock detection); determinism self-check before exploring.",
